@@ -85,6 +85,12 @@ def run(rep, tier):
     pr = Premise(rep, "R0", "C18")
     c18.r1_r4(prog, pr)
     c18.r2(prog, pr)
+    # the x-y formulation differentiates with DDX/DDY: they must be centred difference stencils
+    # that reach into the right neighbour cells (rule instances of C06.R5)
+    from . import c06
+    pr6 = Premise(rep, "R0", "C06")
+    for name, axis in (("DDX", "x"), ("DDY", "y")):
+        c06.diff_stencils(pr6, prog.func(MESH, "MeshRegion." + name), axis)
     for option in ("spline", "dct"):
         for orth in (True, False):
             for psi_decr in (False, True):
